@@ -165,7 +165,7 @@ def run(chk, tier, replay=None):
         chk.count(stats.get("sequences", 0))
         chk.bump("operations_round_tripped", nops)
         if argv[0] == "exh":
-            chk.note_set("exhaustive", "%s build: alphabet %s (%d operations over %d CDF tables), all sequences of "
+            chk.note_set("exhaustive_parts", "%s build: alphabet %s (%d operations over %d CDF tables), all sequences of "
                          "length <= %s, adaptation %s" % (fl, argv[1], stats.get("alphabet_ops", 0),
                                                           stats.get("cdf_tables", 0), argv[2], argv[3]))
         if argv[0] in ("rand", "rand1"):
